@@ -38,7 +38,7 @@ def gen(rng, tier):
         kinds = rng.choice([None, ['push', 'pop', 'push'], ['push', 'pop', 'noop', 'replace'], ['push', 'noop']])
         p = G.random_pda(rng, rng.randint(1, 3), rng.choice(['a', 'ab']), gamma, rng.choice(['_', 'ε']), ntrans=rng.randint(1, 5), kinds=kinds, pfinal=0.5)
         # avoid pushing epsilon moves so that every closure is finite (exact references on both sides)
-        p['delta'] = [t for t in p['delta'] if not (t[1] == p['eps'] and t[4] != p['eps'])] or p['delta'][:1]
+        p['delta'] = [t for t in p['delta'] if not (t[1] == p['eps'] and t[4] != p['eps'])]
         ps.append(p)
     cases = []
     for i, p in enumerate(ps):
